@@ -398,3 +398,46 @@ Proof.
   intros Hp. do 2 eexists. split; [apply src_rso_denotes|]. split; [apply src_rso_denotes|].
   intros i. exact (rso_renumbering n p A s alpha x i Hp).
 Qed.
+
+(* =========================================================================================== *)
+(** * Convolution.forward (Gen/NpConv.v): renumbering the nodes permutes the rows of the embedding *)
+From SKN Require Import Gen.NpConv Proofs.NpConvProofs.
+
+Lemma outw_pmat n p A i : perm_on n p -> outw n (pmat p A) i = outw n A (p i).
+Proof.
+  intros Hp. unfold outw, pmat. rewrite <- !rsum_lsum. exact (rsum_reindex n p (fun j => A (p i) j * 1) Hp).
+Qed.
+
+Lemma nspec_pmat nm n p A i j : perm_on n p -> nspec_r nm n (pmat p A) i j = nspec_r nm n A (p i) (p j).
+Proof.
+  intros Hp. destruct nm; cbn [nspec_r]; rewrite ?(outw_pmat n p A i Hp), ?(outw_pmat n p A j Hp); reflexivity.
+Qed.
+
+Lemma nbar_pmat nm se n p A i j : perm_on n p -> (i < n)%nat -> (j < n)%nat ->
+  nbar_r nm se n (pmat p A) i j = nbar_r nm se n A (p i) (p j).
+Proof.
+  intros Hp Hi Hj. unfold nbar_r. rewrite (nspec_pmat nm n p A i j Hp), (perm_eqb n p i j Hp Hi Hj). reflexivity.
+Qed.
+
+Lemma conv_spec_renumbering nm se ub n d p A X W b i c : perm_on n p -> (i < n)%nat ->
+  conv_spec nm se ub n d (pmat p A) (fun i0 k => X (p i0) k) W b i c = conv_spec nm se ub n d A X W b (p i) c.
+Proof.
+  intros Hp Hi. unfold conv_spec. f_equal. apply lsum_ext. intros k _. f_equal.
+  rewrite <- !rsum_lsum. rewrite <- (rsum_reindex n p (fun j => nbar_r nm se n A (p i) j * X j k) Hp).
+  rewrite !rsum_lsum. apply lsum_ext. intros j Hj. apply in_seq0 in Hj.
+  rewrite (nbar_pmat nm se n p A i j Hp Hi Hj). reflexivity.
+Qed.
+
+Theorem source_conv_renumbering nm se ub n d o p A X W b :
+  perm_on n p ->
+  exists f' f,
+    rvdenote (env_conv n d o (pmat p A) (fun i k => X (p i) k) W b se ub) (src_of nm) = Some (WM n o f') /\
+    rvdenote (env_conv n d o A X W b se ub) (src_of nm) = Some (WM n o f) /\
+    forall i c, (i < n)%nat -> f' i c = f (p i) c.
+Proof.
+  intros Hp.
+  destruct (source_conv_embedding nm se ub n d o (pmat p A) (fun i k => X (p i) k) W b) as (f' & E' & H').
+  destruct (source_conv_embedding nm se ub n d o A X W b) as (f & E & H).
+  exists f', f. split; [exact E'|]. split; [exact E|]. intros i c Hi.
+  rewrite (H' i c Hi), (H (p i) c (perm_below n p i Hp Hi)). exact (conv_spec_renumbering nm se ub n d p A X W b i c Hp Hi).
+Qed.
